@@ -184,6 +184,19 @@ def run(ck: Check):
                 viol(sc, "a member that could reach its coordinator did not leave the group on stop()")
     # producers
     pscs = [gen_producer(rng, i) for i in range(ck.n(40, 500))]
+    # producers that met records rejected by the record builder (an empty batch was queued for them), or submitted an
+    # empty BatchBuilder, before stop()
+    rng_bad = random.Random(ck.seed * 7121 + 1920)
+    for i in range(ck.n(16, 150)):
+        sc = gen_producer(rng_bad, 800000 + i)
+        sc["_cond"] = "rejected-" + sc["_cond"]
+        n = 0
+        for t in sc["tasks"]:
+            for it in t:
+                if "rid" in it and (rng_bad.random() < 0.3 or n == 0):
+                    it["bad"] = rng_bad.choice(["str_value", "str_value", "str_key", "headers"])
+                    n += 1
+        pscs.append(sc)
     pres = prodsim.run_scenarios(pscs, timeout=ck.n(600, 2400))
     for sc, r in zip(pscs, pres):
         hist["cond"]["producer-" + sc["_cond"]] = hist["cond"].get("producer-" + sc["_cond"], 0) + 1
